@@ -16,6 +16,10 @@ import (
 )
 
 func main() {
+	if len(os.Args) >= 3 && os.Args[1] == rotChildFlag {
+		rotChildMain(os.Args[2:])
+		return
+	}
 	if len(os.Args) == 3 && os.Args[1] == childFlag {
 		childMain(os.Args[2])
 		return
@@ -32,10 +36,17 @@ func main() {
 			"PART B (node): accounts with 7 (thorough: 10) different rules created by $acl.NewAccount and confirmed; SetAccountAcl, SetMethodAcl, raw puts / deletes into XCAccount, XCContract, "+
 			"XCContract2Account through the $verif kernel contract, spending the account's outputs and calling a method-rule-protected contract, each signed by every subset of a "+
 			"signer-URI menu (own account, nested account, other account, bare, look-alike, unverified name before the key), before and after a rule change is pending / confirmed; "+
-			"State.VerifyTx must accept iff the rule confirmed at the tip is satisfied. A case is distinct by (box, rule class, multiset of URI categories, oracle verdict) in part A "+
+			"State.VerifyTx must accept iff the rule confirmed at the tip is satisfied. "+
+			"MOVING CHAIN: reorganisations and lost authority (reorg.go); authority GAINED on a branch that is then abandoned (gained.go: operations admitted under it must neither be confirmed by the node's next own block - real miner - nor stay in the pool); "+
+			"CONCURRENT (rotate.go, child process): goroutines verify guarded operations of A next to blocks that rotate A's key (ProcBlock / Walk / own block, storage jitter); verdicts of verifications lying wholly between two blocks, and directed re-verifications of the signer lists that were under verification while the tip moved, must follow the rule confirmed at the tip. "+
+			"A case is distinct by (box, rule class, multiset of URI categories, oracle verdict) in part A "+
 			"and by (operation, rule, URI-category set, phase, verdict) in part B; non-trivial = contains an entry that must not count, a repeat, a nested account or a boundary sum")
-	t0 := time.Now() // progress output only
+	t0 := time.Now()              // progress output only
+	only := os.Getenv("C11_ONLY") // development aid: run only the steps whose name contains this
 	step := func(name string, f func()) {
+		if only != "" && !strings.Contains(name, only) {
+			return
+		}
 		f()
 		fmt.Fprintf(os.Stderr, "c11: %-28s done at %6.1fs\n", name, time.Since(t0).Seconds())
 	}
@@ -51,6 +62,8 @@ func main() {
 		step("part B", func() { partB(r) })
 		step("part B pool churn", func() { jobChurn(r) })
 		step("part B moving chain", func() { jobReorg(r) })
+		step("part B gained authority", func() { jobGained(r) })
+		step("part B rotation (child)", func() { jobRotation(r) })
 	}
 
 	flush(r)
@@ -66,6 +79,7 @@ func main() {
 	r.Floor("A.float.signer-sets-exactly-at-threshold", 50)
 	if os.Getenv("C11_SKIP_B") == "" {
 		partBFloors(r)
+		gainedFloors(r)
 	}
 	r.Assume("every signer URI handed to the evaluation ends in a key whose signature was verified upstream (State.verifySignatures rejects a transaction with any bad auth_require signature); names before that key are NOT verified")
 	r.Assume("not enforced (counted as oracle.unspecified): bare key offered to an account rule, account-format name without a rule inside a path, empty listed key set, evaluation of an account that has no rule; a URI with an empty component or with a non-account name before the signing key contributes nothing — refusing the whole list because of it (fail closed) and ignoring just that URI are both accepted")
